@@ -207,7 +207,8 @@ def main(run):
     run.assumptions += ["1 <= mu <= lambda (mu = 0 divides by zero in computeParams)", "sigma > 0, C symmetric positive definite",
                         "fitness values finite; order independence only for pairwise distinct fitnesses",
                         "cmatrix given as a numpy array"]
-    run.build_props()
+    run.build_props()                                  # Props/C13.v (mathcomp, algebraic model)
+    run.build_props(props="Props/C13_exec.v")         # list model + Reals instance
     rng = run.rng
     nprng = numpy.random.RandomState(rng.randrange(2 ** 31))
 
